@@ -3,14 +3,17 @@ import ExoVerif.Model.Genesis
 # C18 — genesis export and re-import reproduce the chain (partial, with findings)
 
 `roundtrip P bt h s = init P bt h (exportDoc P s)` for the cross-module core (undelegation records + hold counts,
-the three per-epoch dogfood queues, operator key indexes, epochs), parameterised by the byte prefixes `P` the
-dogfood exporters iterate / the setters write (regenerated from the Go source, see C18Tie).
+the three per-epoch dogfood queues, operator key indexes, epochs), parameterised by `P`: the byte prefixes the dogfood
+exporters iterate / the setters write and whether x/dogfood re-places the holds at import (all regenerated from the
+Go source, see C18Tie).
 
-* with the prefixes as they SHOULD be (`fixedPrefixes`) the dogfood queues survive the round trip;
-* with the prefixes of the code AS IT IS (`codePrefixes`) the prune and maturity queues are replaced by copies of
-  the opt-out queue (F-18a);
-* hold counts are never exported (F-18b), the reverse lookup of a replaced key is not rebuilt (F-18c);
-* `C18_full` is the property's statement for the core; `C18_full_fails` is the machine-checked counter-example.
+* `codePrefixes` is the code as it is after the F-18a / F-18b repairs: every queue is reproduced
+  (`C18_roundtrip_dogfood_actual`), hold counts are rebuilt from the imported maturity queue
+  (`C18_roundtrip_delegation`);
+* `preFixPrefixes` is the code before the repairs; `C18_regression_F18a*` / `C18_regression_F18b*` keep the
+  machine-checked counter-examples (prune and maturity queues replaced by copies of the opt-out queue, holds zeroed);
+* still open: the reverse lookup of a replaced key is not rebuilt (F-18c) — `C18_full` is the property's statement
+  for the core, `C18_full_fails` its counter-example on the repaired code, `C18_roundtrip_core_partial` what holds.
 Assets, oracle, mint and fee-distribution export code is not modelled: differential run on the real app only.
 -/
 namespace ExoVerif.Genesis
@@ -18,16 +21,17 @@ open ExoVerif.Epochs
 
 /-! ## delegation: undelegation records and hold counts -/
 
-/-- what the round trip does to the undelegations, for every state: records kept, every hold count zeroed -/
-theorem C18_roundtrip_delegation_holds_dropped (P : Prefixes) (bt h : Int) (s : Core) :
-    (roundtrip P bt h s).unds = s.unds.map (fun u => { u with hold := 0 }) := by
-  simp [roundtrip, init, exportDoc, List.map_map, Function.comp_def]
+/-- what the round trip does to the undelegations, for every state and every configuration -/
+theorem C18_roundtrip_delegation_holds (P : Prefixes) (bt h : Int) (s : Core) :
+    (roundtrip P bt h s).unds =
+      s.unds.map (fun u => { u with hold := if P.rebuildHolds then holdOf (queueOf P.maturesIter s.queues) u.id else 0 }) := by
+  show (s.unds.map (fun u => (u.id, u.complete, u.amount))).map _ = _
+  rw [List.map_map]
+  rfl
 
-/-- the round trip reproduces the undelegation state exactly iff no record is on hold -/
-theorem C18_roundtrip_delegation_partial (P : Prefixes) (bt h : Int) (s : Core) :
-    (roundtrip P bt h s).unds = s.unds ↔ ∀ u ∈ s.unds, u.hold = 0 := by
-  rw [C18_roundtrip_delegation_holds_dropped]
-  induction s.unds with
+theorem map_hold_eq (l : List Und) (f : Und → Int) :
+    l.map (fun u => { u with hold := f u }) = l ↔ ∀ u ∈ l, u.hold = f u := by
+  induction l with
   | nil => simp
   | cons u rest ih =>
     simp only [List.map_cons, List.cons.injEq, List.mem_cons, forall_eq_or_imp]
@@ -38,14 +42,38 @@ theorem C18_roundtrip_delegation_partial (P : Prefixes) (bt h : Int) (s : Core) 
       simpa using this.symm
     · rintro ⟨h1, h2⟩
       refine ⟨?_, ih.mpr h2⟩
-      cases u; simp_all
+      cases u with
+      | mk i c a hd => exact congrArg (Und.mk i c a) h1.symm
+
+/-- Repaired code: the undelegation state (records AND hold counts) is reproduced exactly iff every hold count equals
+    the number of maturity entries listing the record — the invariant of reachable states, x/dogfood being the only
+    holder (it places the hold and the maturity entry together, and removes them together). -/
+theorem C18_roundtrip_delegation (bt h : Int) (s : Core) :
+    (roundtrip codePrefixes bt h s).unds = s.unds ↔ ∀ u ∈ s.unds, u.hold = holdOf (queueOf 6 s.queues) u.id := by
+  rw [C18_roundtrip_delegation_holds]
+  exact map_hold_eq s.unds _
+
+/-- Pre-repair regression (F-18b): every hold count was zeroed, for every state … -/
+theorem C18_regression_F18b_holds_dropped (bt h : Int) (s : Core) :
+    (roundtrip preFixPrefixes bt h s).unds = s.unds.map (fun u => { u with hold := 0 }) := by
+  rw [C18_roundtrip_delegation_holds]; rfl
+
+/-- … so the undelegations were reproduced iff no record was on hold -/
+theorem C18_regression_F18b_partial (bt h : Int) (s : Core) :
+    (roundtrip preFixPrefixes bt h s).unds = s.unds ↔ ∀ u ∈ s.unds, u.hold = 0 := by
+  rw [C18_regression_F18b_holds_dropped]
+  exact map_hold_eq s.unds (fun _ => 0)
 
 /-! ## dogfood: the three per-epoch queues -/
 
 def WellPrefixed (s : Core) : Prop := ∀ q ∈ s.queues, q.pfx = 3 ∨ q.pfx = 5 ∨ q.pfx = 6
 
+/-- the store is keyed by the prefix byte: entries come in prefix order -/
+def StoreOrdered (s : Core) : Prop :=
+  s.queues = s.queues.filter (fun q => q.pfx == 3) ++ s.queues.filter (fun q => q.pfx == 5) ++ s.queues.filter (fun q => q.pfx == 6)
+
 theorem filter_queue_roundtrip (qs : List QEntry) (p : Nat) :
-    ((queueOf p qs).map (fun r => (⟨p, r.1, r.2⟩ : QEntry))) = qs.filter (fun q => q.pfx == p) := by
+    ((queueOf p qs).map (fun r => (⟨p, r.1, r.2.1, r.2.2⟩ : QEntry))) = qs.filter (fun q => q.pfx == p) := by
   induction qs with
   | nil => rfl
   | cons q rest ih =>
@@ -56,41 +84,53 @@ theorem filter_queue_roundtrip (qs : List QEntry) (p : Nat) :
       cases q; simp_all
     · simp only [hq, Bool.false_eq_true, if_false]; exact ih
 
-theorem filter_map_other (l : List (Int × String)) (p p' : Nat) (hne : p ≠ p') :
-    (l.map (fun r => (⟨p, r.1, r.2⟩ : QEntry))).filter (fun q => q.pfx == p') = [] := by
+theorem filter_map_other (l : List (Int × String × List String)) (p p' : Nat) (hne : p ≠ p') :
+    (l.map (fun r => (⟨p, r.1, r.2.1, r.2.2⟩ : QEntry))).filter (fun q => q.pfx == p') = [] := by
   induction l with
   | nil => rfl
   | cons r rest ih => simp [ih, hne]
 
-theorem filter_map_same (l : List (Int × String)) (p : Nat) :
-    (l.map (fun r => (⟨p, r.1, r.2⟩ : QEntry))).filter (fun q => q.pfx == p) = l.map (fun r => (⟨p, r.1, r.2⟩ : QEntry)) := by
+theorem filter_map_same (l : List (Int × String × List String)) (p : Nat) :
+    (l.map (fun r => (⟨p, r.1, r.2.1, r.2.2⟩ : QEntry))).filter (fun q => q.pfx == p) = l.map (fun r => (⟨p, r.1, r.2.1, r.2.2⟩ : QEntry)) := by
   induction l with
   | nil => rfl
   | cons r rest ih => simp [ih]
 
-/-- With exporters that iterate the prefix their collection is written under, each of the three queues is
-    reproduced entry by entry (store order = prefix order, so this is the whole dogfood queue state). -/
-theorem C18_roundtrip_dogfood_fixed (bt h : Int) (s : Core) (p : Nat) (hp : p = 3 ∨ p = 5 ∨ p = 6) :
-    (roundtrip fixedPrefixes bt h s).queues.filter (fun q => q.pfx == p) = s.queues.filter (fun q => q.pfx == p) := by
-  simp only [roundtrip, init, exportDoc, fixedPrefixes, List.filter_append]
+/-- The code as it is (exporters iterate the prefix their collection is written under): the queues after the round
+    trip are the opt-out, prune and maturity entries of the original, in store order … -/
+theorem C18_roundtrip_dogfood_actual (bt h : Int) (s : Core) :
+    (roundtrip codePrefixes bt h s).queues =
+      s.queues.filter (fun q => q.pfx == 3) ++ s.queues.filter (fun q => q.pfx == 5) ++ s.queues.filter (fun q => q.pfx == 6) := by
+  simp only [roundtrip, init, exportDoc, codePrefixes]
+  rw [filter_queue_roundtrip, filter_queue_roundtrip, filter_queue_roundtrip]
+
+/-- … hence each of the three queues is reproduced entry by entry, for every state … -/
+theorem C18_roundtrip_dogfood_each (bt h : Int) (s : Core) (p : Nat) (hp : p = 3 ∨ p = 5 ∨ p = 6) :
+    (roundtrip codePrefixes bt h s).queues.filter (fun q => q.pfx == p) = s.queues.filter (fun q => q.pfx == p) := by
+  simp only [roundtrip, init, exportDoc, codePrefixes, List.filter_append]
   rcases hp with rfl | rfl | rfl
   · rw [filter_map_same, filter_map_other _ 5 3 (by decide), filter_map_other _ 6 3 (by decide), filter_queue_roundtrip]; simp
   · rw [filter_map_other _ 3 5 (by decide), filter_map_same, filter_map_other _ 6 5 (by decide), filter_queue_roundtrip]; simp
   · rw [filter_map_other _ 3 6 (by decide), filter_map_other _ 5 6 (by decide), filter_map_same, filter_queue_roundtrip]; simp
 
-/-- The code as it is: the opt-out queue survives, the prune queue and the maturity queue are both replaced by a
-    relabelled copy of the opt-out queue — whatever they held is lost (F-18a). -/
-theorem C18_roundtrip_dogfood_actual (bt h : Int) (s : Core) :
-    (roundtrip codePrefixes bt h s).queues =
-      (queueOf 3 s.queues).map (fun r => (⟨3, r.1, r.2⟩ : QEntry)) ++
-      (queueOf 3 s.queues).map (fun r => (⟨5, r.1, r.2⟩ : QEntry)) ++
-      (queueOf 3 s.queues).map (fun r => (⟨6, r.1, r.2⟩ : QEntry)) := by
-  simp [roundtrip, init, exportDoc, codePrefixes]
+/-- … and the whole queue state of a store-ordered state is reproduced exactly. -/
+theorem C18_roundtrip_dogfood (bt h : Int) (s : Core) (ho : StoreOrdered s) :
+    (roundtrip codePrefixes bt h s).queues = s.queues := by
+  rw [C18_roundtrip_dogfood_actual]; exact ho.symm
 
-/-- in particular, with no opt-out in progress every pending prune / maturity entry disappears -/
-theorem C18_dogfood_queues_lost (bt h : Int) (s : Core) (hno : queueOf 3 s.queues = []) :
-    (roundtrip codePrefixes bt h s).queues = [] := by
-  rw [C18_roundtrip_dogfood_actual, hno]; rfl
+/-- Pre-repair regression (F-18a): the opt-out queue survived, the prune queue and the maturity queue were both
+    replaced by a relabelled copy of the opt-out queue — whatever they held was lost. -/
+theorem C18_regression_F18a (bt h : Int) (s : Core) :
+    (roundtrip preFixPrefixes bt h s).queues =
+      (queueOf 3 s.queues).map (fun r => (⟨3, r.1, r.2.1, r.2.2⟩ : QEntry)) ++
+      (queueOf 3 s.queues).map (fun r => (⟨5, r.1, r.2.1, r.2.2⟩ : QEntry)) ++
+      (queueOf 3 s.queues).map (fun r => (⟨6, r.1, r.2.1, r.2.2⟩ : QEntry)) := by
+  simp [roundtrip, init, exportDoc, preFixPrefixes]
+
+/-- in particular, with no opt-out in progress every pending prune / maturity entry disappeared -/
+theorem C18_regression_F18a_queues_lost (bt h : Int) (s : Core) (hno : queueOf 3 s.queues = []) :
+    (roundtrip preFixPrefixes bt h s).queues = [] := by
+  rw [C18_regression_F18a, hno]; rfl
 
 /-! ## operator: consensus-key indexes -/
 
@@ -128,64 +168,73 @@ theorem C18_roundtrip_epochs (P : Prefixes) (bt h : Int) (s : Core)
   simp only [roundtrip, init, exportDoc]
   exact initEpochs_id bt h s.epochs hinv
 
-/-! ## the full statement for the core, and its failure on the unchanged code -/
+/-! ## the full statement for the core -/
 
 def coreEq (a b : Core) : Prop :=
   a.unds = b.unds ∧ a.queues = b.queues ∧ a.curKeys = b.curKeys ∧ a.prevKeys = b.prevKeys ∧ a.reverse = b.reverse ∧ a.epochs = b.epochs
 
-/-- states as the keepers produce them: queue entries under the three prefixes in store order, reverse index covering
-    current and previous keys, epochs started -/
+/-- states as the keepers produce them: queue entries under the three prefixes in store order, hold count = number of
+    maturity entries listing the record, epochs started -/
 def Inv (s : Core) : Prop :=
-  WellPrefixed s ∧ (∀ e ∈ s.epochs, valid e = true ∧ e.startTime ≠ 0 ∧ e.currentEpochStartHeight ≠ 0) ∧
-  (∀ u ∈ s.unds, 0 ≤ u.hold)
+  WellPrefixed s ∧ StoreOrdered s ∧ (∀ e ∈ s.epochs, valid e = true ∧ e.startTime ≠ 0 ∧ e.currentEpochStartHeight ≠ 0) ∧
+  (∀ u ∈ s.unds, u.hold = holdOf (queueOf 6 s.queues) u.id)
 
-/-- C18 for the core: every reachable state is reproduced by export + init (prefixes of the code as it is) -/
+/-- C18 for the core: every reachable state is reproduced by export + init -/
 def C18_full : Prop := ∀ (bt h : Int) (s : Core), Inv s → coreEq (roundtrip codePrefixes bt h s) s
 
-/-- one undelegation held by x/dogfood with its maturity entry, and one replaced consensus key -/
+/-- one undelegation held by x/dogfood with its maturity entry, a pending prune, and one replaced consensus key -/
 def witness : Core :=
   { unds := [⟨"rec1", 13, 1000000, 1⟩],
-    queues := [⟨5, 4, "oldConsAddr"⟩, ⟨6, 4, "rec1"⟩],
+    queues := [⟨5, 4, "oldConsAddr", []⟩, ⟨6, 4, "m1", ["rec1"]⟩],
     curKeys := [("op1", "newCons")], prevKeys := [("op1", "oldCons")],
     reverse := [("newCons", "op1"), ("oldCons", "op1")], epochs := [] }
 
 theorem C18_witness_inv : Inv witness := by
-  refine ⟨?_, ?_, ?_⟩
+  refine ⟨?_, ?_, ?_, ?_⟩
   · intro q hq; simp [witness] at hq; rcases hq with rfl | rfl <;> simp
+  · unfold StoreOrdered; decide
   · intro e he; simp [witness] at he
   · intro u hu; simp [witness] at hu; subst hu; decide
 
+/-- still refuted on the repaired code: the reverse lookup of the replaced key is lost (F-18c) -/
 theorem C18_full_fails : ¬ C18_full := by
   intro hfull
-  have := (hfull 0 0 witness C18_witness_inv).1
+  have := (hfull 0 0 witness C18_witness_inv).2.2.2.2.1
   revert this
   decide
 
-/-- the same witness is reproduced in its queues once the exporters iterate the right prefixes … -/
-example : (roundtrip fixedPrefixes 0 0 witness).queues = witness.queues := by decide
-/-- … while the unchanged code loses both queue entries, the hold and the reverse lookup of the old key -/
-example : (roundtrip codePrefixes 0 0 witness).queues = [] := by decide
-example : (roundtrip codePrefixes 0 0 witness).unds = [⟨"rec1", 13, 1000000, 0⟩] := by decide
+/-- the repaired code reproduces the witness's queues and its hold count … -/
+example : (roundtrip codePrefixes 0 0 witness).queues = witness.queues := by decide
+example : (roundtrip codePrefixes 0 0 witness).unds = witness.unds := by decide
+/-- … but not the reverse lookup of the old key -/
 example : (roundtrip codePrefixes 0 0 witness).reverse = [("newCons", "op1")] := by decide
+/-- pre-repair regression on the same witness: both queue entries and the hold were lost -/
+theorem C18_regression_witness :
+    (roundtrip preFixPrefixes 0 0 witness).queues = [] ∧
+    (roundtrip preFixPrefixes 0 0 witness).unds = [⟨"rec1", 13, 1000000, 0⟩] := by decide
 
-/-- what holds for the unchanged code: a state with no held undelegation, no entry in any dogfood queue and no
-    replaced key is reproduced exactly (an opt-out in progress is itself exported correctly but is additionally
-    copied into the prune and maturity queues, see `C18_roundtrip_dogfood_actual`) -/
-theorem C18_roundtrip_core_partial (bt h : Int) (s : Core)
-    (hq : s.queues = []) (hh : ∀ u ∈ s.unds, u.hold = 0)
-    (hrev : s.reverse = s.curKeys.map (fun k => (k.2, k.1)))
-    (hep : ∀ e ∈ s.epochs, valid e = true ∧ e.startTime ≠ 0 ∧ e.currentEpochStartHeight ≠ 0) :
+/-- What holds for the code as it is: every invariant state whose reverse index covers current keys only (no
+    replaced key waiting to be pruned) is reproduced exactly — undelegations with their hold counts, all three dogfood
+    queues, key indexes, epochs. -/
+theorem C18_roundtrip_core_partial (bt h : Int) (s : Core) (hinv : Inv s)
+    (hrev : s.reverse = s.curKeys.map (fun k => (k.2, k.1))) :
     coreEq (roundtrip codePrefixes bt h s) s := by
-  refine ⟨(C18_roundtrip_delegation_partial _ bt h s).mpr hh, ?_, rfl, rfl,
+  obtain ⟨_, ho, hep, hh⟩ := hinv
+  exact ⟨(C18_roundtrip_delegation bt h s).mpr hh, C18_roundtrip_dogfood bt h s ho, rfl, rfl,
     C18_roundtrip_operator_reverse_partial _ bt h s hrev, C18_roundtrip_epochs _ bt h s hep⟩
-  rw [C18_dogfood_queues_lost bt h s (by rw [hq]; rfl), hq]
 
-def quietState : Core :=
-  { unds := [⟨"rec1", 13, 1000000, 0⟩], queues := [], curKeys := [("op1", "newCons")], prevKeys := [],
-    reverse := [("newCons", "op1")], epochs := [] }
+def heldState : Core :=
+  { unds := [⟨"rec1", 13, 1000000, 1⟩, ⟨"rec2", 14, 5, 1⟩], queues := [⟨3, 7, "opA", []⟩, ⟨5, 4, "oldConsAddr", []⟩, ⟨6, 4, "m1", ["rec1", "rec2"]⟩],
+    curKeys := [("op1", "newCons")], prevKeys := [], reverse := [("newCons", "op1")], epochs := [] }
 
-example : (roundtrip codePrefixes 0 0 quietState).unds = quietState.unds ∧
-    (roundtrip codePrefixes 0 0 quietState).queues = quietState.queues ∧
-    (roundtrip codePrefixes 0 0 quietState).reverse = quietState.reverse := by decide
+example : Inv heldState := by
+  refine ⟨?_, by unfold StoreOrdered; decide, ?_, ?_⟩
+  · intro q hq; simp [heldState] at hq; rcases hq with rfl | rfl | rfl <;> simp
+  · intro e he; simp [heldState] at he
+  · intro u hu; simp [heldState] at hu; rcases hu with rfl | rfl <;> decide
+
+example : (roundtrip codePrefixes 0 0 heldState).unds = heldState.unds ∧
+    (roundtrip codePrefixes 0 0 heldState).queues = heldState.queues ∧
+    (roundtrip codePrefixes 0 0 heldState).reverse = heldState.reverse := by decide
 
 end ExoVerif.Genesis
